@@ -245,6 +245,11 @@ Proof.
     + destruct (visit_rest_now_sub (tab st) (nchg st) x) as [V1 [V2 _]].
       unfold sub_after_ok, with_core, expiry_anchor, unprimed. cbn [s_since s_rep_at s_acc].
       rewrite V1. replace (x_now x =? IMAX) with false by lia. reflexivity.
+    + destruct (visit_rest_now_sub (tab st) (nchg st) x) as [V1 [V2 _]].
+      destruct (report_is_sent (visit_rest (tab st) (nchg st) x)).
+      * unfold sub_after_ok, with_core, expiry_anchor, unprimed. cbn [s_since s_rep_at s_acc].
+        rewrite V1. replace (x_now x =? IMAX) with false by lia. reflexivity.
+      * unfold sub_after_skip, with_core, expiry_anchor, unprimed in *. cbn [s_since s_rep_at s_acc]. rewrite V2. exact Hx1.
     + unfold sub_after_fail, with_core, expiry_anchor, unprimed in *. cbn [s_since s_rep_at s_acc]. exact Hx1.
     + exact Hx1.
   - destruct (report_slot_free st); cbn [fst]; [|exact T].
@@ -286,3 +291,48 @@ Proof.
   apply not_expired_anchor in Hne. unfold expiry_ok. rewrite (T1 s Hin).
   apply orb_true_iff. destruct Hne; [left|right]; lia.
 Qed.
+
+(** * the liveness reference is the last report that was SENT
+
+    [s_since] is ghost: the [now] of the last report actually sent and delivered (else of the
+    acceptance / resumption).  With the repaired code an empty report that is skipped does not move
+    [reported_at], so the instant the liveness point is computed from is the last sent report. *)
+Theorem reported_at_is_last_sent : forall ops s,
+  Forall op_time_ok ops -> In s (subs (run init ops)) -> unprimed s = false -> s_rep_at s = s_since s.
+Proof.
+  intros ops s Hok Hin Hu. pose proof (run_tinv ops init init_tinv Hok) as [T1 _].
+  rewrite (T1 s Hin). unfold expiry_anchor. rewrite Hu. reflexivity.
+Qed.
+
+Theorem liveness_from_last_sent : forall ops s tb evw,
+  Forall op_time_ok ops -> In s (subs (run init ops)) ->
+  unprimed s = false -> s_min s <= s_max s ->
+  s_retry_at s <= s_since s + s_max s * 1000 -> s_since s + s_max s * 1000 <= IMAX ->
+  next_report_at s tb evw <= s_since s + s_max s * 1000 /\
+  is_reportable s (next_report_at s tb evw) tb evw = true.
+Proof.
+  intros ops s tb evw Hok Hin Hu Hmm Hr Hov.
+  pose proof (reported_at_is_last_sent ops s Hok Hin Hu) as E. rewrite <- E in *.
+  destruct (liveness_due s tb evw Hu Hmm Hr Hov) as [_ [H1 H2]]. split; assumption.
+Qed.
+
+(** before the repair: the subscriber subscribed to (0,10,0); (2,11,3) changes every 20 s (max interval
+    60 s); every report is empty and skipped, yet moves [reported_at]: after 80 s nothing has been sent
+    and the liveness point lies at 110 s *)
+Definition unsent_witness : list op :=
+  [OSubBegin 1 100 0 60 [mkPath 0 10 0] 0 0; OCtxEnd 1 EOk;
+   OChange 2 11 3; OReportBegin 20000 0; OCtxEnd 1 ESkip;
+   OChange 2 11 3; OReportBegin 40000 0; OCtxEnd 1 ESkip;
+   OChange 2 11 3; OReportBegin 60000 0; OCtxEnd 1 ESkip;
+   OChange 2 11 3; OReportBegin 80000 0; OCtxEnd 1 ESkip].
+
+Lemma unsent_before_fix :
+  existsb (fun s => (s_since s =? 0) && (s_rep_at s =? 80000) && (s_since s + s_max s * 1000 <? report_due_at s))
+          (subs (run_gen true true false init unsent_witness)) = true.
+Proof. vm_compute. reflexivity. Qed.
+
+Lemma unsent_after_fix :
+  forallb (fun s => (s_rep_at s =? s_since s) && (report_due_at s <=? s_since s + s_max s * 1000))
+          (subs (run init unsent_witness)) = true /\
+  Forall op_time_ok unsent_witness.
+Proof. split; [vm_compute; reflexivity|unfold unsent_witness; repeat constructor]. Qed.
